@@ -524,6 +524,64 @@ def _w_c01(args):
     return out
 
 
+def large_structured_programs(tier, use_solve=False):
+    """yields None (agreement) or a failure dict per program; programs over n = 130 / 257 variables:
+       chain   x0, x_i -> x_{i+1}                      exactly one model (all true)            [+ not x_{n-1}: unsatisfiable]
+       ladder  y_0 = 0, y_{i+1} = y_i + 1 (ints)       exactly one model (y_i = i)             [+ y_{n-1} != n-1: unsatisfiable]
+       blocks  exactly one of every 3 consecutive vars x_{3k}, x_{3k+1}, x_{3k+2}, and x_{3k} for all k: one model
+    checked: find_answer / solve verdict, and every reported value (solve: every key is decided)"""
+    load_repo()
+    from cspuz import Solver, count_true
+    for n in ((130,) if tier == "quick" else (130, 257)):
+        for kind in ("chain", "chain-unsat", "ladder", "ladder-unsat", "blocks"):
+            s = Solver()
+            if kind.startswith("chain"):
+                xs = [s.bool_var() for _ in range(n)]
+                s.ensure(xs[0])
+                for i in range(n - 1):
+                    s.ensure(xs[i].then(xs[i + 1]))
+                if kind.endswith("unsat"):
+                    s.ensure(~xs[n - 1])
+                want = {v.id: True for v in xs}
+                keys = xs
+            elif kind.startswith("ladder"):
+                ys = [s.int_var(0, n) for _ in range(n)]
+                s.ensure(ys[0] == 0)
+                for i in range(n - 1):
+                    s.ensure(ys[i + 1] == ys[i] + 1)
+                if kind.endswith("unsat"):
+                    s.ensure(ys[n - 1] != n - 1)
+                want = {v.id: i for i, v in enumerate(ys)}
+                keys = ys
+            else:
+                m3 = n - n % 3
+                xs = [s.bool_var() for _ in range(m3)]
+                for k in range(0, m3, 3):
+                    s.ensure(count_true(xs[k:k + 3]) == 1)
+                    s.ensure(xs[k])
+                want = {v.id: (i % 3 == 0) for i, v in enumerate(xs)}
+                keys = xs
+            sat = not kind.endswith("unsat")
+            try:
+                if use_solve:
+                    s.add_answer_key(keys)
+                    r = s.solve()
+                else:
+                    r = s.find_answer()
+            except Exception as e:
+                yield dict(kind="exception:%s" % type(e).__name__, detail="large program %s(n=%d): %s: %s" % (kind, n, type(e).__name__, str(e)[:160]), program=[kind, n])
+                continue
+            if bool(r) != sat or (r is not True and r is not False):
+                yield dict(kind="sat-mismatch", detail="large program %s(n=%d): the solver says %r, by construction it is %ssatisfiable" % (kind, n, r, "" if sat else "un"), program=[kind, n])
+                continue
+            if sat:
+                bad = [(v.id, v.sol, want[v.id]) for v in keys if v.sol != want[v.id] or type(v.sol) is not type(want[v.id])]
+                if bad:
+                    yield dict(kind="sol-not-the-model", detail="large program %s(n=%d): its only model is not what sol reports, e.g. (id, sol, model) %s" % (kind, n, bad[:3]), program=[kind, n])
+                    continue
+            yield None
+
+
 def run_c01(rep, tier, seed, nproc=16):
     from concurrent.futures import ProcessPoolExecutor
     from pyvc.runner import write_replay
@@ -552,6 +610,17 @@ def run_c01(rep, tier, seed, nproc=16):
                 rp = write_replay("C01", "find_answer_%s_%s" % (f["kind"], f["cls"]), payload)
                 rep.violation(sig, "%s | program %s" % (f["detail"], json.dumps(f["program"])[:400]), rp)
     rep.coverage["matrix_programs"] = nm
+    # LARGE programs whose meaning is known by construction (a size-dependent branch of Solver or of a back end -- batching
+    # constraints, declaring variables in blocks -- never runs on programs small enough for the brute-force oracle)
+    for f in large_structured_programs(tier):
+        rep.evaluations += 1
+        if f is not None:
+            sig = "e2e:find_answer:%s:large" % f["kind"]
+            if sig not in seen:
+                seen.add(sig)
+                payload = dict(engine="programs", property="C01", **f)
+                rp = write_replay("C01", "find_answer_%s_large" % f["kind"], payload)
+                rep.violation(sig, f["detail"], rp)
     rep.distinct.update(("c01", i) for i in range(rep.evaluations))
 
 
